@@ -18,7 +18,9 @@ fn main() {
     let args: Vec<String> = std::env::args().collect();
     let text = std::fs::read_to_string(&args[1]).expect("case file");
     let timeout_ms: u64 = args.get(2).map(|s| s.parse().unwrap()).unwrap_or(4000);
-    std::panic::set_hook(Box::new(|_| {}));
+    if std::env::var("VERIF_BT").is_err() {
+        std::panic::set_hook(Box::new(|_| {}));
+    }
     let mut cases: Vec<Vec<String>> = Vec::new();
     for line in text.lines() {
         let line = line.trim();
